@@ -8,6 +8,11 @@ import struct
 import sys
 
 from rv.model.bits import Expect
+from rv.model import minifloat as mf
+
+# the small float formats (their codes are modelled in rv.model.minifloat, which C11 checks code by code)
+MINI = ('e4m3mxfp', 'e5m2mxfp', 'e3m2mxfp', 'e2m3mxfp', 'e2m1mxfp', 'p4binary', 'p3binary')
+
 
 NATIVE_LE = sys.byteorder == 'little'
 
@@ -31,7 +36,7 @@ def valid_length(name: str, n) -> bool:
     if name in VARIABLE:
         return n is None
     if n is None:
-        return name in ('bool', 'bfloat', 'bfloatle')
+        return name in ('bool', 'bfloat', 'bfloatle') or name in MINI
     if n < 0:
         return False
     if name in ('uint', 'int'):
@@ -50,6 +55,8 @@ def valid_length(name: str, n) -> bool:
         return n == 1
     if name in ('bfloat', 'bfloatle'):
         return n == 16
+    if name in MINI:
+        return n == mf.CODECS[name].nbits
     return False
 
 
@@ -189,6 +196,15 @@ def encode(name: str, n, value) -> str:
     """Canonical bits of (dtype, length n, value).  n is in bits except for 'bytes' (byte count).
     Raises Expect('ValueError') for anything the statement of C15 calls invalid."""
     name = canon(name)
+    if name in MINI:
+        import bitstring
+        cd = mf.CODECS[name]
+        if n not in (None, cd.nbits) or isinstance(value, (str, bytes)) or value is None:
+            raise Expect('ValueError')
+        code = cd.encode(float(value), bitstring.options.mxfp_overflow)
+        if code is None:
+            raise Expect('ValueError')
+        return format(code, f'0{cd.nbits}b')
     if name in VARIABLE:
         if n is not None:
             raise Expect('ValueError')
@@ -255,6 +271,8 @@ def tidy(s: str, prefix: str) -> str:
 def decode(name: str, bits: str):
     """Value of a whole bit string under a fixed-length interpretation (caller ensures validity)."""
     name = canon(name)
+    if name in MINI:
+        return mf.to_float(mf.CODECS[name].decode(int(bits, 2)))
     if name in ('uint', 'uintbe'):
         return bits_to_int(bits, False)
     if name in ('int', 'intbe'):
